@@ -164,6 +164,34 @@ Fixpoint run_items (is : list item) (c : counter) : option (list gcase * counter
 (* runTest: `if factory.Statistics.Fails > 0 { return ErrExit }` *)
 Definition exit_status (c : counter) : nat := match fails c with O => 0 | S _ => 1 end.
 
+(* Tester.Run over the test FILES of one invocation: `for i := range targetFiles { result, err := t.run(f);
+   if err != nil { return nil, err } ... }` with ONE counter.  A file that cannot be resolved / lexed / parsed
+   (or whose run times out) fails in t.run before any of its tests runs: [FBroken].  The error leaves Run
+   without a factory: no result of ANY file is reported. *)
+Inductive tfile := FBroken | FOk (is : list item).
+Fixpoint run_files (fs : list tfile) (c : counter) : option (list gcase * counter) :=
+  match fs with
+  | [] => Some ([], c)
+  | FBroken :: _ => None
+  | FOk is :: r =>
+      match run_items is c with
+      | None => None
+      | Some (cs1, c1) =>
+        match run_files r c1 with
+        | None => None
+        | Some (cs2, c2) => Some (cs1 ++ cs2, c2)
+        end
+      end
+  end.
+(* cmd/falco runTest: an error of runner.Test is printed and the process ends with ErrExit (1) without a
+   report; otherwise the report is printed and the exit status follows the fail count.
+   (exit status, reported cases, reported counter) *)
+Definition cli_outcome (fs : list tfile) : nat * list gcase * counter :=
+  match run_files fs c0 with
+  | None => (1, [], c0)
+  | Some (cs, c) => (exit_status c, cs, c)
+  end.
+
 (* what the text report counts *)
 Definition is_skipped (x : tcase) : bool := tc_skip x.
 Definition is_failed (x : tcase) : bool := negb (tc_skip x) && failed (tc_verdict x).
@@ -225,6 +253,8 @@ Arguments g_before {scope body}.
 Arguments g_after {scope body}.
 Arguments g_tests {scope body}.
 Arguments ISingle {scope body}.
+Arguments FBroken {scope body}.
+Arguments FOk {scope body}.
 Arguments IGroup {scope body}.
 Arguments t_name {scope body}.
 Arguments t_scopes {scope body}.
